@@ -1160,7 +1160,6 @@ func observedOnAllPaths(v ssa.Value) bool {
 	return walk(b, idx, map[ssa.Value]bool{v: true})
 }
 
-
 // The same discipline for resolution: an error produced while references, URIs and JSON Pointers are resolved
 // (a dangling pointer, an unknown anchor, a loader failure) must make Resolve fail. Every error-typed result
 // of a call in a package function of the resolution closure is looked at on every path before the function
